@@ -98,6 +98,7 @@ struct DeflateSession {
         uint64_t fill = 0, regs = 0;
         int place = 0;
         bool rel = true, dangling = false, recycle = false, contig = false;
+        uint16_t eosval = 1;
         std::vector<uint8_t> lead_in;
         Slot *s_all = nullptr; // contiguous mode: the whole input in one mapping, chunks are consecutive slices of it
         RefInflate ref;
@@ -140,6 +141,9 @@ struct DeflateSession {
                 dangling = m.geti("dangling") != 0;
                 recycle = m.geti("recycle") != 0;
                 contig = m.geti("contig") != 0;
+                eosval = (uint16_t) plan.geti("eosval", 1);
+                if (!eosval)
+                        eosval = 1;
                 regs = (uint64_t) m.geti("regs");
                 if (const char *e = getenv("SIM_REGS"))
                         regs = strtoull(e, 0, 0);
@@ -336,7 +340,7 @@ struct DeflateSession {
                         eos = true;
                 }
                 if (eos)
-                        st->end_of_stream = 1;
+                        st->end_of_stream = eosval; // "non-zero if this is the last input buffer": 1, or any other non-zero value
                 if ((uint32_t) flush > 2)
                         flush = flush % 3;
                 if (st->flush != flush && calls > 0)
@@ -827,6 +831,8 @@ static Json gen_deflate(Rng &r0, const std::string &focus, int tier)
                 data = d3;
                 n = (uint64_t) data.geti("n");
         }
+        static const int eosvals[] = { 2, 0x100, 0x101, 0x8000, 0xffff, 3 };
+        p.set("eosval", r.chance(1, 6) ? r.pick(eosvals) : 1);
         p.set("data", data).set("level", level).set("wrap", wrap).set("hb", hb);
         Json lb = Json::arr();
         lb.push((int) (tiny_lb || r.chance(1, 2) ? 0 : r.below(5))).push(tiny_lb || r.chance(1, 2) ? 0 : (int) r.below(r.chance(1, 2) ? 64 : 50000)).push((int) r.below(2));
